@@ -1,25 +1,71 @@
 """C01 — every operation that yields a skeleton yields a well-formed skeleton.
 
-Random operation histories on real TreeNeurons.  After every step (a) for operations the Lean model
-covers, the implementation's node table is compared with `applyOp` evaluated on the implementation's
-own pre-state; (b) for every operation (modelled or only watched) the Lean checkers `wfB` and
-`labelsOKB` — proved sound in Props/C01.lean — are evaluated on the implementation's table, plus
-no-NaN and soma-exists clauses."""
-import pickle, warnings, random
+Operation histories on real TreeNeurons.  After every step
+ (a) for operations the Lean model covers, the implementation's node table is compared with the model
+     (`applyOp`, `insertNodes`, `cutMany`, `resampleSkip`, `fromEdges`) evaluated on the implementation's
+     own pre-state;
+ (b) for every operation (modelled or only watched) the Lean checkers `wfB` / `labelsOKB` / `somaOKB` —
+     proved sound in Props/C01.lean — are evaluated on the implementation's table and reported soma, plus a
+     no-NaN clause;
+ (c) the soma the skeleton reports is compared with the Lean soma bookkeeping model (`stepSoma`).
+
+Streams: `hist` (generated forests × mixed histories, three back-ends), `resample` (every interpolation
+kind × skip_errors × coincident nodes × row orders), `soma` (several thick nodes; detected / fixed / pinned
+somas through resampling and every node-dropping operation), `construct` (tables with alias columns and
+odd dtypes, networkx graphs, vertex/edge lists, SWC text, re-initialisation, mesh → skeleton)."""
+import io, os, pickle, warnings, random, tempfile
 import numpy as np
 import pandas as pd
+import networkx as nx
 
 warnings.filterwarnings('ignore')
 import navis
 from . import gen as G
+from . import backends as B
 
 navis.config.pbar_hide = True
 navis.set_loggers('ERROR')
 
 MODELLED = ['subset', 'reroot', 'cutd', 'cutp', 'remove', 'ds', 'classify']
-WATCHED = ['prune_twigs', 'prune_strahler', 'prune_depth', 'longest', 'heal', 'resample', 'insert',  # insert: also diffed against insertNodes
-           'mul', 'add', 'copy', 'pickle',
-           'smooth', 'despike', 'stitch', 'fragments', 'rewire', 'reinit', 'cbf', 'drop_fluff']
+# diffed against a Lean model other than `applyOp` (see run_history)
+# operations that leave ids, parents and labels alone (the model's `touch`)
+TOUCH_OPS = {'mul', 'div', 'add', 'sub', 'copy', 'pickle', 'smooth', 'despike', 'guess_radius', 'reinit', 'setsoma', 'average'}
+MODELLED_EXT = ['insert', 'cutmany', 'resample', 'setnodes', 'construct (tables, graphs, edges, SWC)'] + sorted(TOUCH_OPS)
+WATCHED = ['prune_twigs', 'prune_strahler', 'prune_depth', 'longest', 'heal', 'resample', 'insert',
+           'mul', 'div', 'add', 'sub', 'copy', 'pickle', 'smooth', 'despike', 'guess_radius', 'stitch', 'combine',
+           'fragments', 'rewire', 'reinit', 'cbf', 'drop_fluff', 'merge_dups', 'raa', 'average', 'split_frag',
+           'split_ad', 'cutmany', 'setnodes', 'setsoma', 'nx_roundtrip', 'edges_roundtrip', 'swc_roundtrip',
+           'rerootmany', 'subset_opts', 'nl_map']
+METHODS = ['linear', 'nearest', 'nearest-up', 'zero', 'slinear', 'quadratic', 'cubic', 'previous', 'next']
+# operations that map over a NeuronList (exercised through `nl_map`)
+NL_OPS = ['prune_twigs', 'prune_strahler', 'ds', 'resample', 'smooth', 'despike', 'heal', 'drop_fluff', 'longest', 'prune_depth']
+
+
+# ------------------------------------------------------------------------------------------------
+# neurons
+# ------------------------------------------------------------------------------------------------
+def to_neuron(rows, units='1 nm', radius_col=True, connectors=None):
+    df = pd.DataFrame({'node_id': np.array([r['id'] for r in rows], dtype=np.int64),
+                       'parent_id': np.array([r['parent'] for r in rows], dtype=np.int64),
+                       'x': np.array([r['x'] for r in rows], dtype=float),
+                       'y': np.array([r['y'] for r in rows], dtype=float),
+                       'z': np.array([r['z'] for r in rows], dtype=float)})
+    if radius_col:
+        df['radius'] = np.array([r.get('r', 0.01) if r.get('r', 0.01) is not None else np.nan for r in rows], dtype=float)
+    x = navis.TreeNeuron(df, units=units)
+    if connectors:
+        x.connectors = pd.DataFrame(connectors, columns=['connector_id', 'node_id', 'x', 'y', 'z', 'type'])
+    return x
+
+
+def rand_connectors(r, rows, p=0.3):
+    out = []
+    for k, rw in enumerate(rows):
+        if r.random() < p:
+            out.append([1000 + k, rw['id'], rw['x'], rw['y'], rw['z'], r.choice(['pre', 'post'])])
+    if out and len({c[5] for c in out}) == 1 and len(out) > 1:
+        out[0][5] = 'pre' if out[0][5] == 'post' else 'post'
+    return out
 
 
 def state(x):
@@ -27,55 +73,193 @@ def state(x):
     return dict(ids=[int(i) for i in nd.node_id.values], pm={int(i): int(p) for i, p in zip(nd.node_id.values, nd.parent_id.values)})
 
 
-def pick_op(r, x):
+def soma_list(x):
+    s = x.soma
+    return None if s is None else sorted(int(v) for v in np.atleast_1d(s))
+
+
+def soma_spec(x):
+    """How the soma is stored: D = detection function, N = none, O:<id> = one fixed id, M:<ids> = several fixed ids."""
+    s = x._soma
+    if callable(s):
+        return 'D'
+    if s is None:
+        return 'N'
+    if navis.utils.is_iterable(s):
+        return 'M:' + ','.join(str(int(v)) for v in s)
+    return f'O:{int(s)}'
+
+
+def thick_ids(x):
+    """Node ids whose radius passes the default soma detection (radius × units ≥ 1 µm; no label column here)."""
+    nd = x.nodes
+    if 'radius' not in nd.columns:
+        return []
+    rad = nd.radius.values.astype(float)
+    u = x.units
+    try:
+        if u.dimensionless or isinstance(u.magnitude, np.ndarray):
+            big = rad >= 1
+        else:
+            big = rad * u.to('um').magnitude >= 1
+    except Exception:
+        big = rad >= 1
+    big = big & ~np.isnan(rad)
+    lab = getattr(x, 'soma_detection_label', None)
+    if lab is not None and 'label' in nd.columns:      # SWC input: the label must match as well
+        big = big & (np.asarray(nd.label.values).astype(str) == str(lab))
+    return [int(i) for i in nd.node_id.values[big]]
+
+
+# ------------------------------------------------------------------------------------------------
+# operations
+# ------------------------------------------------------------------------------------------------
+def pick_op(r, x, stream='hist'):
     st = state(x)
     ids, pm = st['ids'], st['pm']
     nroots = sum(1 for p in pm.values() if p < 0)
     nonroot = [i for i in ids if pm[i] >= 0]
-    kinds = list(MODELLED) * 2 + WATCHED
+    soma = soma_list(x) or []
+    if stream == 'soma':
+        kinds = (['remove', 'prune_strahler', 'subset', 'setnodes', 'raa', 'resample', 'ds', 'cutd', 'cutp', 'prune_twigs'] * 3
+                 + ['longest', 'cbf', 'reroot', 'heal', 'copy', 'pickle', 'mul', 'div', 'merge_dups', 'stitch', 'reinit', 'setsoma',
+                    'split_frag', 'fragments', 'drop_fluff', 'prune_depth', 'smooth', 'insert', 'nl_map', 'cutmany'])
+    elif stream == 'resample':
+        kinds = ['resample'] * 6 + ['reroot', 'remove', 'subset', 'insert', 'ds', 'cutd', 'stitch', 'heal', 'merge_dups']
+    else:
+        kinds = list(MODELLED) * 2 + WATCHED
     k = r.choice(kinds)
     if k == 'subset':
         keep = [i for i in ids if r.random() < r.choice([0.5, 0.8, 0.95])]
+        if stream == 'soma' and len(soma) > 1 and r.random() < 0.7:   # drop one soma node but not all
+            d = r.choice(soma)
+            keep = [i for i in ids if i != d and (i in soma or r.random() < 0.9)]
         return dict(op=k, keep=keep or ids[:1])
+    if k == 'subset_opts':
+        keep = [i for i in ids if r.random() < 0.8] or ids[:1]
+        return dict(op=k, keep=keep, how=r.choice(['mask', 'graph', 'array', 'set']), prevent_fragments=r.random() < 0.3,
+                    keep_disc_cn=r.random() < 0.5)
     if k == 'reroot':
+        if soma and r.random() < 0.4:
+            return dict(op=k, r=r.choice(soma))
         return dict(op=k, r=r.choice(ids))
+    if k == 'rerootmany':
+        return dict(op=k, rs=[r.choice(ids) for _ in range(r.randint(2, 4))])
     if k in ('cutd', 'cutp'):
         if nroots != 1 or not nonroot:
             return dict(op='reroot', r=r.choice(ids))
         return dict(op=k, c=r.choice(nonroot))
+    if k == 'cutmany':
+        if not nonroot:
+            return dict(op='classify')
+        return dict(op=k, cs=r.sample(nonroot, min(len(nonroot), r.randint(1, 3))), pick=r.randrange(10 ** 6))
     if k == 'remove':
+        if len(ids) <= 1:
+            return dict(op='classify')
         w = [i for i in ids if r.random() < 0.2]
+        if stream == 'soma' and len(soma) > 1 and r.random() < 0.8:
+            w = [r.choice(soma)] + [i for i in ids if i not in soma and r.random() < 0.1]
+        r.shuffle(w)
         if len(w) >= len(ids):
             w = w[:-1]
-        return dict(op=k, which=w or ids[-1:]) if len(ids) > 1 else dict(op='classify')
+        return dict(op=k, which=w or ids[-1:])
+    if k == 'setnodes':
+        keep = [i for i in ids if r.random() < 0.85]
+        if len(soma) > 1 and r.random() < 0.8:
+            d = r.choice(soma)
+            keep = [i for i in ids if i != d and (i in soma or r.random() < 0.9)]
+        return dict(op=k, keep=keep or ids[:1], shuffle=r.randrange(10 ** 6))
+    if k == 'setsoma':
+        return dict(op=k, v=r.choice(ids + [None]))
     if k == 'ds':
-        return dict(op=k, f=r.choice([1, 2, 2, 3, 5, 'inf']), pres=[i for i in ids if r.random() < 0.15])
+        return dict(op=k, f=r.choice([2, 2, 3, 5, 1.5, 'inf']), pres=[i for i in ids if r.random() < 0.15])
     if k == 'prune_twigs':
-        return dict(op=k, size=r.choice([1, 3, 5, 9, 20]), recursive=r.choice([False, True, 2]), exact=r.random() < 0.3)
+        return dict(op=k, size=r.choice([1, 3, 5, 9, 20, '4 nm']), recursive=r.choice([False, True, 2]), exact=r.random() < 0.3,
+                    mask=([i for i in ids if r.random() < 0.5] if r.random() < 0.25 else None))
     if k == 'prune_strahler':
-        return dict(op=k, to_prune=r.choice([1, [1, 2], -1, 2, [3, 4]]))
+        return dict(op=k, to_prune=r.choice([1, [1, 2], -1, 2, [3, 4], 'range12', 'slice1']), reroot_soma=r.random() < 0.5,
+                    relocate=r.random() < 0.3, force=r.random() < 0.3)
     if k == 'prune_depth':
-        return dict(op=k, depth=r.choice([2, 5, 9, 20]), source=r.choice(ids + [None]))
+        return dict(op=k, depth=r.choice([2, 5, 9, 20, '6 nm']), source=r.choice(ids + [None]))
     if k == 'longest':
-        return dict(op=k, n=r.choice([1, 2, 3]), inverse=r.random() < 0.3, reroot_soma=False)
+        return dict(op=k, n=r.choice([1, 2, 3, 'slice1']), inverse=r.random() < 0.3, reroot_soma=r.random() < 0.4,
+                    from_root=r.random() < 0.7)
     if k == 'heal':
-        return dict(op=k, method=r.choice(['ALL', 'LEAFS']), max_dist=r.choice([None, None, 6, 30]))
+        return dict(op=k, method=r.choice(['ALL', 'LEAFS']), max_dist=r.choice([None, None, 6, 30, '10 nm']),
+                    min_size=r.choice([None, None, 2, 4]), drop_disc=r.random() < 0.25,
+                    mask=([i for i in ids if r.random() < 0.7] if r.random() < 0.2 else None))
     if k == 'resample':
-        return dict(op=k, res=r.choice([1, 2, 4, 7]))
+        res = r.choice([1, 2, 4, 7, '3 nm'])
+        try:    # keep the result small: at most ~300 new nodes
+            cable, num = float(x.cable_length), float(x.map_units(res, on_error='raise'))
+            if not (cable / num <= 300):
+                res = max(1, int(cable / 200))
+        except Exception:
+            res = 4
+        o = dict(op=k, res=res)
+        if stream == 'resample' or r.random() < 0.5:
+            o.update(method=r.choice(METHODS), skip_errors=r.random() < 0.8)
+        return o
+    if k == 'raa':
+        return dict(op=k, interval=r.choice([2, 4, 8]), axis=r.choice([0, 1, 2]), old_nodes=r.choice(['remove', 'keep', 'snap']))
     if k == 'insert':
         if not nonroot:
             return dict(op='classify')
         ch = r.sample(nonroot, min(len(nonroot), r.randint(1, 3)))
-        return dict(op=k, where=[[pm[c], c] for c in ch])
-    if k == 'mul':
-        return dict(op=k, k=r.choice([2, 0.5, 4]))
-    if k == 'add':
-        return dict(op=k, k=r.choice([1, -3, 16]))
-    if k == 'stitch':
+        return dict(op=k, where=[[pm[c], c] if r.random() < 0.8 else [c, pm[c]] for c in ch], coords=r.random() < 0.3)
+    if k in ('mul', 'div'):
+        return dict(op=k, k=r.choice([2, 0.5, 4, [2, 2, 2, 2], [1, 2, 4, 1]]))
+    if k in ('add', 'sub'):
+        return dict(op=k, k=r.choice([1, -3, 16, [1, 2, 3]]))
+    if k in ('stitch', 'combine'):
         return dict(op=k, seed=r.randrange(10 ** 6), method=r.choice(['LEAFS', 'ALL', 'NONE']))
     if k == 'rewire':
-        return dict(op=k, drop=r.choice(nonroot) if nonroot else None)
+        return dict(op=k, drop=r.choice(nonroot) if nonroot else None, root=r.choice([None, None] + ids))
+    if k == 'smooth':
+        return dict(op=k, window=r.choice([2, 3, 5]), to_smooth=r.choice([['x', 'y', 'z'], ['radius'], ['x', 'radius']]))
+    if k == 'despike':
+        return dict(op=k, sigma=r.choice([1, 3, 5]), max_spike_length=r.choice([1, 2, 3]), reverse=r.random() < 0.3)
+    if k == 'guess_radius':
+        return dict(op=k, method=r.choice(['linear', 'nearest', 'cubic']), limit=r.choice([None, 2]), smooth=r.random() < 0.5)
+    if k == 'cbf':
+        return dict(op=k, method=r.choice(['betweenness', 'longest_neurite']), reroot_soma=r.random() < 0.5, heal=r.random() < 0.5,
+                    inverse=r.random() < 0.3)
+    if k == 'drop_fluff':
+        return dict(op=k, keep_size=r.choice([None, None, 2, 5]), n_largest=r.choice([None, None, 1, 2]))
+    if k == 'merge_dups':
+        return dict(op=k, round=r.choice([False, False, 1]))
+    if k == 'average':
+        return dict(op=k, seed=r.randrange(10 ** 6), limit=r.choice([10, 50, '20 nm']))
+    if k == 'split_frag':
+        return dict(op=k, n=r.choice([2, 3, 4]), min_size=r.choice([None, None, 3]), reroot_soma=r.random() < 0.3, pick=r.randrange(10 ** 6))
+    if k == 'split_ad':
+        return dict(op=k, metric=r.choice(['synapse_flow_centrality', 'bending_flow', 'segregation_index', 'flow_centrality']),
+                    split=r.choice(['prepost', 'distance']), cellbodyfiber=r.choice([False, 'soma', 'root']),
+                    reroot_soma=r.random() < 0.5, pick=r.randrange(10 ** 6))
+    if k == 'fragments':
+        return dict(op=k, seed=r.randrange(10 ** 6), min_size=r.choice([None, None, 2]))
+    if k == 'nl_map':
+        inner = pick_op(r, x, stream='hist')
+        for _ in range(20):
+            if inner['op'] in NL_OPS:
+                break
+            inner = pick_op(r, x, stream='hist')
+        else:
+            inner = dict(op='ds', f=2, pres=[])
+        return dict(op=k, inner=inner, seed=r.randrange(10 ** 6))
     return dict(op=k, seed=r.randrange(10 ** 6))
+
+
+_LAST = {}
+
+
+def _strahler_arg(v):
+    return range(1, 3) if v == 'range12' else slice(1, None) if v == 'slice1' else v
+
+
+def _partner(rr, nmax=8):
+    rows, _m = G.rand_forest(rr, nmax=nmax, labeling=rr.choice(['seq', 'seq', 'shuffled', 'zero']))
+    return G.to_neuron(rows)
 
 
 def apply_impl(x, op, inplace):
@@ -87,73 +271,167 @@ def apply_impl(x, op, inplace):
         return x if inplace else y
     if k == 'subset':
         return ret(navis.subset_neuron(x, op['keep'], **kw))
+    if k == 'subset_opts':
+        keep = op['keep']
+        if op['how'] == 'mask':
+            sub = x.nodes.node_id.isin(keep).values
+        elif op['how'] == 'graph':
+            sub = x.graph.subgraph(keep)
+        elif op['how'] == 'array':
+            sub = np.array(keep)
+        else:
+            sub = set(keep)
+        return ret(navis.subset_neuron(x, sub, prevent_fragments=op['prevent_fragments'], keep_disc_cn=op['keep_disc_cn'], **kw))
     if k == 'reroot':
         return ret(navis.reroot_skeleton(x, op['r'], **kw))
+    if k == 'rerootmany':
+        return ret(navis.reroot_skeleton(x, op['rs'], **kw))
     if k == 'cutd':
         return ret(x.prune_proximal_to(op['c'], **kw))
     if k == 'cutp':
         return ret(x.prune_distal_to(op['c'], **kw))
+    if k == 'cutmany':
+        return navis.cut_skeleton(x, op['cs'])      # NeuronList; the caller checks every piece and picks one
     if k == 'remove':
         return ret(navis.remove_nodes(x, op['which'], **kw))
+    if k == 'setnodes':
+        df = navis.subset_neuron(x, op['keep']).nodes.copy()
+        df = df.sample(frac=1, random_state=op['shuffle'] % (2 ** 31)).reset_index(drop=True)
+        y = x if inplace else x.copy()
+        _LAST['assigned'] = ' '.join(f'{int(i)}:{int(p)}:0:0:0' for i, p in zip(df.node_id.values, df.parent_id.values))
+        y.nodes = df
+        return y
+    if k == 'setsoma':
+        y = x if inplace else x.copy()
+        y.soma = op['v']
+        return y
     if k == 'ds':
         f = float('inf') if op['f'] == 'inf' else op['f']
         return ret(navis.downsample_neuron(x, f, preserve_nodes=op['pres'] or None, **kw))
     if k == 'classify':
         return ret(navis.graph.classify_nodes(x, **kw))
     if k == 'prune_twigs':
-        return ret(navis.prune_twigs(x, size=op['size'], recursive=op['recursive'], exact=op['exact'], **kw))
+        return ret(navis.prune_twigs(x, size=op['size'], recursive=op['recursive'], exact=op['exact'],
+                                     mask=(np.asarray(op['mask']) if op.get('mask') is not None else None), **kw))
     if k == 'prune_strahler':
-        return ret(navis.prune_by_strahler(x, to_prune=op['to_prune'], **kw))
+        return ret(navis.prune_by_strahler(x, to_prune=_strahler_arg(op['to_prune']), reroot_soma=op.get('reroot_soma', True),
+                                           relocate_connectors=op.get('relocate', False), force_strahler_update=op.get('force', False), **kw))
     if k == 'prune_depth':
         return ret(navis.prune_at_depth(x, depth=op['depth'], source=op['source'], **kw))
     if k == 'longest':
-        return ret(navis.longest_neurite(x, n=op['n'], inverse=op['inverse'], reroot_soma=False, **kw))
+        n = slice(1, None) if op['n'] == 'slice1' else op['n']
+        return ret(navis.longest_neurite(x, n=n, inverse=op['inverse'], reroot_soma=op.get('reroot_soma', False),
+                                         from_root=op.get('from_root', True), **kw))
     if k == 'heal':
-        return ret(navis.heal_skeleton(x, method=op['method'], max_dist=op['max_dist'], **kw))
+        return ret(navis.heal_skeleton(x, method=op['method'], max_dist=op['max_dist'], min_size=op.get('min_size'),
+                                       drop_disc=op.get('drop_disc', False), mask=op.get('mask'), **kw))
     if k == 'resample':
-        return ret(navis.resample_skeleton(x, op['res'], **kw))
+        o = {kk: op[kk] for kk in ('method', 'skip_errors') if kk in op}
+        return ret(navis.resample_skeleton(x, op['res'], **o, **kw))
+    if k == 'raa':
+        return ret(navis.resample_along_axis(x, op['interval'], axis=op['axis'], old_nodes=op['old_nodes'], **kw))
     if k == 'insert':
-        return ret(navis.insert_nodes(x, op['where'], **kw))
-    if k == 'mul':
+        coords = None
+        if op.get('coords'):
+            loc = x.nodes.set_index('node_id')[['x', 'y', 'z']]
+            coords = [((loc.loc[a].values + loc.loc[b].values) / 2 + 1).tolist() for a, b in op['where']]
+        return ret(navis.insert_nodes(x, op['where'], coords=coords, **kw))
+    if k in ('mul', 'div', 'add', 'sub'):
+        v = op['k']
         if inplace:
-            x *= op['k']; return x
-        return x * op['k']
-    if k == 'add':
-        if inplace:
-            x += op['k']; return x
-        return x + op['k']
+            if k == 'mul':
+                x *= v
+            elif k == 'div':
+                x /= v
+            elif k == 'add':
+                x += v
+            else:
+                x -= v
+            return x
+        return x * v if k == 'mul' else x / v if k == 'div' else x + v if k == 'add' else x - v
     if k == 'copy':
-        return x.copy()
+        return x.copy(deepcopy=bool(op.get('seed', 0) % 2))
     if k == 'pickle':
         return pickle.loads(pickle.dumps(x))
     if k == 'smooth':
-        return ret(navis.smooth_skeleton(x, window=3, **kw))
+        return ret(navis.smooth_skeleton(x, window=op.get('window', 3), to_smooth=op.get('to_smooth', ['x', 'y', 'z']), **kw))
     if k == 'despike':
-        return ret(navis.despike_skeleton(x, sigma=3, **kw))
-    if k == 'stitch':
+        return ret(navis.despike_skeleton(x, sigma=op.get('sigma', 3), max_spike_length=op.get('max_spike_length', 1),
+                                          reverse=op.get('reverse', False), **kw))
+    if k == 'guess_radius':
+        if not x.has_connectors:
+            return x
+        return ret(navis.guess_radius(x, method=op['method'], limit=op['limit'], smooth=op['smooth'], **kw))
+    if k in ('stitch', 'combine'):
         rr = random.Random(op['seed'])
         # 1–3 partners; labelings that clash with x and with each other (several neurons need fresh ids)
-        others = []
-        for _ in range(rr.choice([1, 2, 2, 3])):
-            rows, _m = G.rand_forest(rr, nmax=8, labeling=rr.choice(['seq', 'seq', 'shuffled', 'zero']))
-            others.append(G.to_neuron(rows))
-        return navis.stitch_skeletons(x, *others, method=op['method'], master=rr.choice(['SOMA', 'LARGEST', 'FIRST']))
+        others = [_partner(rr) for _ in range(rr.choice([1, 2, 2, 3]))]
+        master = rr.choice(['SOMA', 'LARGEST', 'FIRST'])
+        if k == 'combine':
+            return navis.combine_neurons(x, *others)
+        return navis.stitch_skeletons(x, *others, method=op['method'], master=master)
     if k == 'fragments':
-        fr = navis.break_fragments(x)
-        return fr[random.Random(op['seed']).randrange(len(fr))]
+        fr = navis.break_fragments(x, min_size=op.get('min_size'))
+        return fr[random.Random(op['seed']).randrange(len(fr))] if len(fr) else x
     if k == 'rewire':
         g = x.graph.copy()
         if op.get('drop') is not None:
             par = next(g.successors(op['drop']), None)
             if par is not None:
                 g.remove_edge(op['drop'], par)
-        return ret(navis.rewire_skeleton(x, g, **kw))
+        return ret(navis.rewire_skeleton(x, g, root=op.get('root'), **kw))
     if k == 'reinit':
         return navis.TreeNeuron(x)
     if k == 'cbf':
-        return ret(navis.cell_body_fiber(x, reroot_soma=False, **kw)) if x.soma is not None else x
+        if x.soma is None:
+            return x
+        return ret(navis.cell_body_fiber(x, method=op.get('method', 'betweenness'), reroot_soma=op.get('reroot_soma', False),
+                                         heal=op.get('heal', True), inverse=op.get('inverse', False), **kw))
     if k == 'drop_fluff':
-        return ret(navis.drop_fluff(x, **kw))
+        return ret(navis.drop_fluff(x, keep_size=op.get('keep_size'), n_largest=op.get('n_largest'), **kw))
+    if k == 'merge_dups':
+        return ret(navis.graph.clinic.merge_duplicate_nodes(x, round=op['round'], **kw))
+    if k == 'average':
+        rr = random.Random(op['seed'])
+        others = [x.copy() + rr.choice([1, 2, 4]) for _ in range(rr.choice([1, 2]))] + [_partner(rr, nmax=12)]
+        return navis.average_skeletons(navis.NeuronList([x] + others), limit=op['limit'], base_neuron=0)
+    if k == 'split_frag':
+        return navis.split_into_fragments(x if inplace else x.copy(), n=op['n'], min_size=op['min_size'], reroot_soma=op['reroot_soma'])
+    if k == 'split_ad':
+        if not x.has_connectors:
+            return x
+        return navis.split_axon_dendrite(x, metric=op['metric'], split=op['split'], cellbodyfiber=op['cellbodyfiber'],
+                                         reroot_soma=op['reroot_soma'])
+    if k == 'nx_roundtrip':
+        g = navis.neuron2nx(x)
+        if op['seed'] % 3 == 0:
+            g = g.to_undirected()
+        if op['seed'] % 2:
+            return navis.TreeNeuron(g, units=x.units)
+        return navis.nx2neuron(g, root=int(x.nodes.node_id.values[op['seed'] % len(x.nodes)]) if op['seed'] % 5 else None, units=x.units)
+    if k == 'edges_roundtrip':
+        nd = x.nodes
+        ix = {int(i): j for j, i in enumerate(nd.node_id.values)}
+        edges = np.array([[ix[int(i)], ix[int(p)]] for i, p in zip(nd.node_id.values, nd.parent_id.values) if p >= 0], dtype=int).reshape(-1, 2)
+        if len(edges) == 0:
+            return x
+        if op['seed'] % 2:
+            return navis.TreeNeuron((nd[['x', 'y', 'z']].values, edges), units=x.units)
+        return navis.edges2neuron(edges, nd[['x', 'y', 'z']].values, units=x.units)
+    if k == 'swc_roundtrip':
+        with tempfile.TemporaryDirectory() as d:
+            p = os.path.join(d, 'n.swc')
+            navis.write_swc(x, p)
+            if op['seed'] % 2:
+                return navis.TreeNeuron(p, units=x.units)
+            return navis.read_swc(p)
+    if k == 'nl_map':
+        rr = random.Random(op['seed'])
+        nl = navis.NeuronList([x, _partner(rr, nmax=10)])
+        out = apply_impl(nl, dict(op['inner']), inplace)
+        if inplace:
+            return x
+        return out[0] if isinstance(out, navis.NeuronList) else out
     raise KeyError(k)
 
 
@@ -170,36 +448,86 @@ def op_wire(op):
     if k == 'remove':
         return 'remove=' + ','.join(map(str, op['which']))
     if k == 'ds':
-        return f"ds={op['f']}=" + ','.join(map(str, op['pres']))
+        f = op['f'] if op['f'] == 'inf' else -(-op['f'] // 1)     # `while i < factor`: a fractional factor acts like its ceiling
+        return f"ds={f if f == 'inf' else int(f)}=" + ','.join(map(str, op['pres']))
     if k == 'classify':
         return 'classify'
 
 
-def signature(op, be, err=None):
+SIG_PRUNE_NAN = 'prune_twigs/exact=True+mask/new-tip-on-zero-length-edge/exact-tie/NaN-coordinates'
+SIG_SWC32 = 'read_swc/default-precision=32/node-ids>=2**31/ids-wrap-negative'
+
+
+def signature(op, pre=None, err=None):
+    """Signatures of the recorded genuine defects (known_findings/C01.json): call site / failure kind / input class."""
     k = op['op']
-    if k == 'insert':
-        return 'insert_nodes/new-node-type-nan'
+    inner = op.get('inner', {}) if k == 'nl_map' else op
+    if inner.get('op') == 'prune_twigs' and inner.get('exact') and inner.get('mask') is not None and pre and pre.get('zero_edge'):
+        return SIG_PRUNE_NAN
+    if k.startswith('construct:swc') and pre and pre.get('big_ids') and pre.get('precision', 32) == 32:
+        return SIG_SWC32
     return None
 
 
-def check_state(ctx, y, case, step, op):
-    """Property oracle on the implementation's table after `op`."""
+def has_zero_edge(x):
+    nd = x.nodes
+    loc = {int(i): (a, b, c) for i, a, b, c in zip(nd.node_id.values, nd.x.values, nd.y.values, nd.z.values)}
+    return any(p >= 0 and loc.get(int(p)) == loc[int(i)] for i, p in zip(nd.node_id.values, nd.parent_id.values))
+
+
+# ------------------------------------------------------------------------------------------------
+# oracle
+# ------------------------------------------------------------------------------------------------
+def check_state(ctx, y, case, step, op, pre=None):
+    """Property oracle on the implementation's table after `op` (never raises: a table that cannot even be read is a failure)."""
+    try:
+        return _check_state(ctx, y, case, step, op, pre)
+    except Exception as e:
+        if isinstance(e, (RuntimeError, AssertionError)) and 'driver' in str(e):
+            raise
+        ctx.oracle(False, f"after step {step} ({op['op']}): the node table left behind cannot be read "
+                          f"({type(e).__name__}: {str(e)[:120]}; columns {list(getattr(y, '_nodes', pd.DataFrame()).columns)[:8]})", case,
+                   signature=signature_unreadable(op, y))
+        return False
+
+
+SIG_REROOT_DTYPE = 'reroot_skeleton/inplace/node_id-int64+parent_id-int32/TypeError-leaves-node_id-as-index'
+
+
+def signature_unreadable(op, y):
+    """reroot_skeleton raised half-way (pandas 3 refuses int64 node ids in an int32 parent column) and left `node_id` as the index."""
+    try:
+        nd = y._nodes
+        if ('node_id' not in nd.columns and nd.index.name == 'node_id' and str(nd.index.dtype) == 'int64'
+                and str(nd.parent_id.dtype) == 'int32'):
+            return SIG_REROOT_DTYPE
+    except Exception:
+        pass
+    return None
+
+
+def _check_state(ctx, y, case, step, op, pre=None):
     nd = y.nodes
     what = f"after step {step} ({op['op']})"
-    sig = signature(op, None)
+    sig = signature(op, pre)
     cols = [c for c in ('node_id', 'parent_id', 'x', 'y', 'z') if c in nd.columns]
-    nan = bool(nd[cols].isnull().any().any())
-    ctx.oracle(not nan, f'{what}: NaN in ids/parents/coordinates', case, signature=sig)
+    nan = bool(nd[cols].isnull().any().any()) or not bool(np.isfinite(nd[['x', 'y', 'z']].values.astype(float)).all())
+    ctx.oracle(not nan, f'{what}: NaN in ids/parents/coordinates', case, signature=sig if sig == SIG_PRUNE_NAN else None)
     if nan:
         return False
+    if sig == SIG_PRUNE_NAN:
+        sig = None
     if len(nd) == 0:
         return True
     notype = 'type' not in nd.columns or bool(nd['type'].isnull().any())
-    w = ctx.ask('f.wf ' + G.wire_neuron(y))
+    wire = G.wire_neuron(y)
+    w = ctx.ask('f.wf ' + wire)
     ok1 = ctx.oracle(w.split()[0] == '1', f'{what}: node table is not a well-formed forest (duplicate id / dangling parent / cycle)', case, signature=sig)
+    if not ok1 and sig == SIG_SWC32:
+        return False
     ok2 = ctx.oracle(w.split()[1] == '1' and not notype, f'{what}: root/end/branch/slab labels do not match the topology', case,
                      signature=sig or 'labels')
-    # soma exists
+    # soma exists: the Lean checker `somaOKB` on the reported soma and the implementation's table
     try:
         s = y.soma
     except Exception as e:
@@ -207,30 +535,98 @@ def check_state(ctx, y, case, step, op):
         s = None
     if s is not None:
         ss = [int(v) for v in np.atleast_1d(s)]
-        ctx.oracle(all(v in set(nd.node_id.values.tolist()) for v in ss), f'{what}: reported soma {ss} is not a node of the skeleton', case,
-                   signature='soma-missing')
+        ans = ctx.ask('c01x.somaok ' + ','.join(map(str, ss)) + ' | ' + wire)
+        ctx.oracle(ans == '1', f'{what}: reported soma {ss} is not a node of the skeleton', case, signature='soma-missing')
+        ctx.count('soma_reported', 'one' if len(ss) == 1 else 'several')
     # roots / n_trees consistent
     nroots = int((nd.parent_id < 0).sum())
     ctx.oracle(y.n_trees == nroots, f'{what}: n_trees={y.n_trees} but {nroots} roots in the table', case)
     return ok1 and ok2
 
 
-def run_history(ctx, case):
+SOMA_FOREIGN = {'stitch', 'combine', 'average', 'nx_roundtrip', 'edges_roundtrip', 'swc_roundtrip', 'nl_map', 'setsoma', 'split_ad'}
+
+
+def check_soma_model(ctx, pre_spec, pre_wire, pre_thick, y, case, step, op):
+    """The reported soma vs the Lean soma bookkeeping (`stepSoma`) on the implementation's pre-state."""
+    k = op['op']
+    if k in SOMA_FOREIGN or len(y.nodes) == 0:
+        return
+    act = 'heal_drop' if k == 'heal' and op.get('drop_disc') else k     # the Lean side maps the name to the operation's soma treatment
+    if k == 'cbf':
+        # "If no branches, just return the neuron": decided after the optional healing, which can create but not remove branch points
+        has_branch = ':b' in pre_wire
+        several = sum(1 for tok in pre_wire.split() if int(tok.split(':')[1]) < 0) > 1
+        if has_branch:
+            act = 'cbf'
+        elif not (several and op.get('heal', True)):
+            act = 'classify'      # returned early: nothing but the copy
+        else:
+            return
+    got = soma_list(y)
+    post_thick = thick_ids(y)
+    line = (f"c01x.soma {act} | {pre_spec} | {','.join(map(str, pre_thick))} | {','.join(map(str, post_thick))} | {pre_wire} | "
+            f"{G.wire_neuron(y)}")
+    model = ctx.ask(line)
+    if k == 'resample':
+        impl = 'N' if got is None else f'K:{len(np.atleast_1d(y.soma))}'
+    else:
+        impl = 'N' if got is None else ','.join(map(str, got))
+    ctx.corr(impl, model, f"step {step} {k}: reported soma vs Lean stepSoma ({act}) on the implementation's pre-state (stored soma {pre_spec})", case)
+    ctx.count('soma_model', f'{act}:{pre_spec[0]}')
+    if model.startswith('ERR'):
+        raise RuntimeError(f'soma model: {model} for {k}')
+
+
+def check_piece_list(ctx, pieces, case, step, op, pre=None):
+    ok = True
+    for p in pieces:
+        if len(p.nodes):
+            ok = check_state(ctx, p, case, step, op, pre) and ok
+    return ok
+
+
+def run_history(ctx, case, x0=None):
     rows, ops_seed, nops = case['rows'], case['seed'], case['nops']
+    stream = case.get('stream', 'hist')
     r = random.Random(ops_seed)
-    x = G.to_neuron(rows)
-    if case.get('soma'):
-        x.soma = r.choice([rw['id'] for rw in rows])
+    with B.backend(case.get('backend', 'fastcore')):
+        x = x0 if x0 is not None else to_neuron(rows, units=case.get('units', '1 nm'), radius_col=case.get('radius_col', True),
+                                                connectors=case.get('connectors'))
+        if case.get('soma'):
+            x.soma = r.choice([rw['id'] for rw in rows])
+        if case.get('soma_none'):
+            x.soma = None
+        if x0 is None and len(x.nodes) and not check_state(ctx, x, case, -1, dict(op='construct')):
+            return
+        _history(ctx, case, x, r, nops, stream)
+
+
+def _history(ctx, case, x, r, nops, stream):
     ops_done = []
     given = case.get('ops')
     for step in range(nops if given is None else len(given)):
         if len(x.nodes) == 0:
             break
-        op = given[step] if given is not None else pick_op(r, x)
+        if len(x.nodes) > 600:
+            ctx.count('history_truncated', 'more than 600 nodes')
+            break
+        if given is not None:
+            op = _resolve(given[step], x)
+        elif step == 0 and case.get('first'):
+            op = dict(case['first'])
+        else:
+            op = pick_op(r, x, stream)
         inplace = op.get('inplace', r.random() < 0.5)
         op = dict(op, inplace=inplace)
         pre_wire = G.wire_neuron(x)
         pre_soma = [] if x.soma is None else [int(v) for v in np.atleast_1d(x.soma)]
+        pre_spec, pre_thick = soma_spec(x), thick_ids(x)
+        pre = dict(zero_edge=has_zero_edge(x))
+        pre_segs = None
+        if op['op'] == 'resample':
+            pre_segs = [[int(i) for i in s] for s in x.small_segments]
+            pre_max = int(x.nodes.node_id.max())
         try:
             y = apply_impl(x, op, inplace)
             err = None
@@ -239,46 +635,455 @@ def run_history(ctx, case):
         ops_done.append(op)
         case['ops_done'] = ops_done
         ctx.count('op', op['op'])
+        if op['op'] == 'nl_map':
+            ctx.count('nl_map_inner', op['inner']['op'])
         if err is not None:
             ctx.count('op_error', f"{op['op']}:{type(err).__name__}")
             # an operation may refuse (raise); the neuron left behind must still be well-formed
-            if len(x.nodes):
-                check_state(ctx, x, case, step, op)
+            if len(x.nodes) and not check_state(ctx, x, case, step, op, pre):
+                break       # the neuron left behind is broken (possibly a recorded defect): nothing more to learn from this history
+            if ctx.has_new_failure():
+                break
             continue
         if y is None:
             y = x
+        if isinstance(y, navis.NeuronList):
+            # several pieces: every piece must be well-formed; continue with one of them
+            pieces = list(y)
+            if op['op'] == 'cutmany' and pieces:
+                model = ctx.ask(f"f.cutmany {','.join(map(str, op['cs']))} | {pre_wire}")
+                ctx.corr(sorted(G.topo_neuron(p) for p in pieces), sorted(model.split(' || ')),
+                         f"step {step} cut_skeleton at several nodes: pieces vs Lean cutMany on the implementation's pre-state", case)
+            if not check_piece_list(ctx, pieces, case, step, op, pre):
+                break
+            pieces = [p for p in pieces if len(p.nodes)]
+            if not pieces:
+                break
+            y = pieces[op.get('pick', 0) % len(pieces)]
+            for p in pieces:
+                if p is not y:
+                    check_soma_model(ctx, pre_spec, pre_wire, pre_thick, p, case, step, op)
         if op['op'] == 'insert' and len(y.nodes):
-            model = ctx.ask('f.insert ' + ','.join(f'{p}:{c}' for p, c in op['where']) + f' | {pre_wire}')
+            where = [(p, c) if _is_edge(pre_wire, c, p) else (c, p) for p, c in op['where']]   # navis flips (child, parent) pairs
+            model = ctx.ask('f.insert ' + ','.join(f'{p}:{c}' for p, c in where) + f' | {pre_wire}')
             ctx.corr(G.topo_neuron(y), model, f"step {step} insert_nodes: node table vs Lean insertNodes on the implementation's pre-state", case)
         if op['op'] in MODELLED and len(y.nodes):
             mop = dict(op, pres=list(op['pres']) + pre_soma) if op['op'] == 'ds' else op
             model = ctx.ask(f"f.ops {op_wire(mop)} | {pre_wire}")
             ctx.corr(G.topo_neuron(y), model, f"step {step} {op['op']}: node table vs Lean applyOp on the implementation's pre-state", case)
+        if op['op'] in TOUCH_OPS and len(y.nodes):
+            model = ctx.ask(f'c01x.applyx touch | {pre_wire}')
+            ctx.corr(G.topo_neuron(y), model, f"step {step} {op['op']}: ids / parents / labels vs Lean applyX touch (unchanged) on the "
+                     "implementation's pre-state", case)
+        if op['op'] == 'setnodes' and len(y.nodes):
+            model = ctx.ask(f"c01x.applyx setnodes | {pre_wire} | {_LAST.get('assigned', '')}")
+            ctx.corr(G.topo_neuron(y), model, f"step {step} x.nodes = df: node table vs Lean applyX setNodes (classify of the assigned table)", case)
+        if op['op'] == 'resample' and len(y.nodes):
+            check_resample_model(ctx, pre_wire, pre_segs, pre_max, y, case, step, op)
         if len(y.nodes):
-            if not check_state(ctx, y, case, step, op):
+            if not check_state(ctx, y, case, step, op, pre):
                 break   # a (possibly known) defect corrupts the rest of this history
+            check_soma_model(ctx, pre_spec, pre_wire, pre_thick, y, case, step, op)
         x = y
         if ctx.has_new_failure():
             break
 
 
+def _resolve(op, x):
+    """corpus placeholders: 'SOMA0' = a reported soma node that is not a branch point / root, 'ALLBUT_SOMA0' = every other id"""
+    if op.get('which') == ['SOMA0'] or op.get('keep') == 'ALLBUT_SOMA0':
+        soma = soma_list(x) or []
+        types = dict(zip(x.nodes.node_id.values.tolist(), x.nodes['type'].astype(str).values))
+        cand = [s for s in soma if types.get(s) in ('slab', 'end')] or soma or x.nodes.node_id.values.tolist()[:1]
+        s0 = int(cand[0])
+        if 'which' in op:
+            return dict(op, which=[s0])
+        return dict(op, keep=[int(i) for i in x.nodes.node_id.values if int(i) != s0])
+    return op
+
+
+def _is_edge(wire, child, parent):
+    return any(tok.startswith(f'{child}:{parent}:') for tok in wire.split())
+
+
+def check_resample_model(ctx, pre_wire, pre_segs, pre_max, y, case, step, op):
+    """Structure of the resampled table vs Lean `resampleSkip`: per segment of the pre-state the implementation's
+    outcome (collapsed / resampled with k fresh nodes / kept because interpolation failed) is read off the result,
+    the Lean model rebuilds the whole table from those outcomes and the implementation's segment order."""
+    nd = y.nodes
+    pm = {int(i): int(p) for i, p in zip(nd.node_id.values, nd.parent_id.values)}
+    acts = []
+    for s in pre_segs:
+        if len(s) < 2:
+            acts.append((s, 'c'))
+            continue
+        first, last = s[0], s[-1]
+        p = pm.get(first)
+        if p == last and len(s) == 2:
+            acts.append((s, 'c'))      # indistinguishable from keep / resample-to-2 for a single edge
+        elif p == last:
+            acts.append((s, 'c'))
+        elif p is not None and p > pre_max:
+            # count the fresh chain
+            n, q = 0, p
+            while q > pre_max and q in pm:
+                n += 1
+                q = pm[q]
+            acts.append((s, f'r{n}'))
+        elif p == s[1]:
+            acts.append((s, 'k'))
+        else:
+            acts.append((s, '?'))
+    if any(a == '?' for _, a in acts):
+        ctx.corr('unreadable', 'readable', f"step {step} resample_skeleton: a segment's outcome cannot be read off the result "
+                 "(first node's parent is neither the last node, nor a fresh id, nor its old parent)", case)
+        return
+    # a segment resampled to ≤ 2 positions leaves the same row as a collapsed one but advances the id counter by 2: infer
+    # how many of the undetermined segments before each fresh chain did so from the first fresh id of that chain
+    base, pending = pre_max + 1, []
+    for ix, (s, a) in enumerate(acts):
+        if a == 'c':
+            pending.append(ix)
+        elif a.startswith('r'):
+            first_fresh = pm[s[0]]
+            gap = first_fresh - base
+            if gap < 0 or gap % 2 or gap // 2 > len(pending):
+                ctx.corr(f'first fresh id {first_fresh}', f'counter {base} + 2·j, j ≤ {len(pending)}',
+                         f"step {step} resample_skeleton: fresh ids are not handed out consecutively from max(node_id) + 1", case)
+                return
+            for jx in pending[:gap // 2]:
+                acts[jx] = (acts[jx][0], 'r0')
+            pending = []
+            base = first_fresh + int(a[1:]) + 2
+    payload = ';'.join(','.join(map(str, s)) + '=' + a for s, a in acts)
+    model = ctx.ask(f'c01x.resample {payload} | {pre_wire}')
+    ctx.corr(G.topo_neuron(y), model, f"step {step} resample_skeleton({op.get('method', 'linear')}): node table vs Lean resampleSkip "
+             "on the implementation's pre-state and segment order", case)
+    for _, a in acts:
+        ctx.count('resample_segment', a[0])
+
+
+# ------------------------------------------------------------------------------------------------
+# streams
+# ------------------------------------------------------------------------------------------------
+def y_shape(r, zero_p=0.25):
+    """A trunk and 2–3 arms, each ≥ 4 nodes, with coincident consecutive nodes inside the chains."""
+    rows = []
+    nid = [0]
+
+    def chain(parent, origin, n):
+        pos = list(origin)
+        last = parent
+        for _ in range(n):
+            nid[0] += 1
+            if r.random() >= zero_p:
+                v, _l = G.rand_vec(r)
+                pos = [pos[k] + v[k] for k in range(3)]
+            rows.append(dict(id=nid[0], parent=last, x=pos[0], y=pos[1], z=pos[2]))
+            last = nid[0]
+        return last, pos
+    tip, pos = chain(-1, [r.randint(0, 40) * 4 for _ in range(3)], r.randint(3, 7))
+    forks = [(tip, pos)]
+    for _ in range(r.randint(2, 4)):
+        b, bp = r.choice(forks)
+        t2, p2 = chain(b, bp, r.randint(2, 7))
+        if r.random() < 0.4:
+            forks.append((t2, p2))
+    return rows
+
+
+def relabel(r, rows, labeling, order):
+    ids = [rw['id'] for rw in rows]
+    n = len(ids)
+    if labeling == 'seq':
+        new = list(range(1, n + 1))
+    elif labeling == 'shuffled':
+        new = list(range(1, n + 1)); r.shuffle(new)
+    elif labeling == 'sparse':
+        new = r.sample(range(1, 20 * n + 10), n)
+    elif labeling == 'zero':
+        new = list(range(0, n)); r.shuffle(new)
+    elif labeling == 'large':
+        base = r.choice([2 ** 31 - n - 5, 2 ** 31 + 7, 2 ** 32 + 11, 2 ** 40])
+        new = [base + i for i in range(n)]; r.shuffle(new)
+    else:
+        new = list(range(n, 0, -1))
+    m = dict(zip(ids, new))
+    out = [dict(rw, id=m[rw['id']], parent=m.get(rw['parent'], -1)) for rw in rows]
+    if order == 'reversed':
+        out = out[::-1]
+    elif order == 'shuffled':
+        r.shuffle(out)
+    return out
+
+
+def corpus():
+    """Hand-written cases run first on every run: the recorded defects (printed as KNOWN-FINDING) and the inputs two seeded
+    changes needed (so that their detection does not depend on the PRNG seed)."""
+    def chain(coords, ids=None, r=None):
+        ids = ids or list(range(1, len(coords) + 1))
+        return [dict(id=i, parent=(ids[k - 1] if k else -1), x=c[0], y=c[1], z=c[2], **({'r': r[k]} if r else {}))
+                for k, (i, c) in enumerate(zip(ids, coords))]
+    meta = dict(shape='corpus', labeling='seq', order='parent_first')
+    # 1. prune_twigs(exact, mask): new tip on a zero-length edge, exact tie -> NaN coordinates (open finding)
+    yield dict(stream='hist', rows=chain([(0, 0, 0), (10, 0, 0), (10, 0, 0), (12, 0, 0), (15, 0, 0)]), seed=1, nops=1, meta=dict(meta, n=5),
+               ops=[dict(op='prune_twigs', size=5, recursive=False, exact=True, mask=[3, 4, 5], inplace=False)])
+    # 2. read_swc, default precision, ids >= 2**31 (open finding)
+    big = 2 ** 31 + 7
+    yield dict(stream='construct', rows=chain([(0, 0, 0), (1, 0, 0), (2, 0, 0)], ids=[big, big + 1, big + 2]), how='swc_text', seed=3, nops=0,
+               meta=dict(meta, n=3, labeling='large'), precision_force=32)
+    # 3. read_swc (int32 ids) -> smooth_skeleton (node_id becomes int64) -> reroot in place (open finding)
+    yield dict(stream='hist', rows=chain([(0, 0, 0), (3, 0, 0), (6, 0, 0), (6, 4, 0)]), seed=2, nops=3, meta=dict(meta, n=4),
+               ops=[dict(op='swc_roundtrip', seed=2, inplace=False), dict(op='smooth', window=3, to_smooth=['x', 'y', 'z'], inplace=False),
+                    dict(op='reroot', r=3, inplace=True)])
+    # 4. a trunk and two arms, children listed before parents, one coincident node pair inside an arm; every spline kind
+    rows = []
+    for i in range(1, 7):
+        rows.append(dict(id=i, parent=i - 1 if i > 1 else -1, x=i * 10, y=0, z=0))
+    for j, i in enumerate(range(7, 13)):
+        rows.append(dict(id=i, parent=i - 1 if i > 7 else 6, x=60 + (j + 1) * 10, y=(j + 1) * 10, z=0))
+    for j, i in enumerate(range(13, 19)):
+        rows.append(dict(id=i, parent=i - 1 if i > 13 else 6, x=60 + (j + 1) * 10, y=-(j + 1) * 10, z=0))
+    rows[14] = dict(rows[14], x=rows[13]['x'], y=rows[13]['y'])      # node 15 sits on node 14
+    for method in ('cubic', 'quadratic', 'slinear', 'zero'):
+        for order in (rows[::-1], rows):
+            yield dict(stream='resample', rows=[dict(rw) for rw in order], seed=4, nops=1,
+                       meta=dict(meta, n=18, shape='corpus-y', order='reversed' if order is not rows else 'parent_first'),
+                       ops=[dict(op='resample', res=4, method=method, skip_errors=True, inplace=False)])
+    # 5. two thick nodes -> resample (pins the somas) -> every node-dropping operation that does not go through subset_neuron
+    base = [dict(id=i, parent=i + 1 if i < 20 else -1, x=i * 10, y=0, z=0, r=0.1) for i in range(1, 21)]
+    base += [dict(id=i, parent=(i - 1 if i > 21 else 8), x=80, y=(j + 1) * 10, z=0, r=0.1) for j, i in enumerate(range(21, 27))]
+    for rw in base:
+        if rw['id'] in (7, 8):
+            rw['r'] = 5.0
+    drops = [dict(op='remove', which=['SOMA0']), dict(op='prune_strahler', to_prune=1, reroot_soma=False, relocate=False, force=False),
+             dict(op='setnodes', keep='ALLBUT_SOMA0', shuffle=5), dict(op='subset', keep='ALLBUT_SOMA0'),
+             dict(op='raa', interval=7, axis=0, old_nodes='remove')]
+    for d in drops:
+        yield dict(stream='soma', rows=[dict(rw) for rw in base], units='1 micron', seed=5, nops=2, meta=dict(meta, n=26, shape='corpus-soma'),
+                   ops=[dict(op='resample', res=5, inplace=False), dict(d, inplace=False)])
+
+
 def gen_cases(ctx):
     r = ctx.rng
-    for k in range(ctx.budget(150, 2500)):
+    q = ctx.quick()
+    yield from corpus()
+    # 1. mixed histories over the shared generator, three back-ends
+    for k in range(ctx.budget(110, 900)):
         rows, meta = G.rand_forest(r, nmax=12 if k % 2 else 30, allow_zero_edges=(k % 5 == 0))
-        yield dict(rows=rows, seed=r.randrange(10 ** 9), nops=r.randint(3, 12 if ctx.quick() else 30), soma=(k % 4 == 0), meta=meta)
+        if k % 7 == 3:
+            for rw in rows:
+                if r.random() < 0.3:
+                    rw['r'] = r.choice([None, -1, 0])
+        c = dict(stream='hist', rows=rows, seed=r.randrange(10 ** 9), nops=r.randint(3, 12 if q else 30), soma=(k % 4 == 0), meta=meta,
+                 backend=['fastcore', 'fastcore', 'igraph', 'networkx'][k % 4] if k % 3 == 0 else 'fastcore',
+                 radius_col=(k % 11 != 5))
+        if k % 3 == 1:
+            c['connectors'] = rand_connectors(r, rows)
+        yield c
+    # 2. resampling: every interpolation kind, coincident nodes, every row order
+    for k in range(ctx.budget(70, 450)):
+        lab, order = G.LABELINGS[k % len(G.LABELINGS)], G.ORDERS[(k // 2) % 3]
+        if k % 3:
+            rows = relabel(r, y_shape(r, zero_p=r.choice([0.1, 0.25, 0.4])), lab, order)
+            meta = dict(shape='y', n=len(rows), labeling=lab, order=order)
+        else:
+            rows, meta = G.rand_forest(r, nmax=24, allow_zero_edges=True, labeling=lab, order=order)
+        yield dict(stream='resample', rows=rows, seed=r.randrange(10 ** 9), nops=r.randint(1, 5), meta=meta,
+                   backend=['fastcore', 'fastcore', 'igraph', 'networkx'][k % 4] if k % 5 == 0 else 'fastcore')
+    # 3. several thick nodes: detected / fixed / pinned somas through resampling and node-dropping operations
+    for k in range(ctx.budget(70, 450)):
+        lab, order = G.LABELINGS[(k // 3) % len(G.LABELINGS)], G.ORDERS[k % 3]
+        rows, meta = G.rand_forest(r, n=r.randint(6, 26), shape=r.choice(['random', 'caterpillar', 'broom', 'balanced', 'forest', 'broot', 'chain']),
+                                   labeling=lab, order=order)
+        units, thick = r.choice([('1 micron', 5.0), ('1 nm', 2000.0), ('8 nm', 500.0), ('1 dimensionless', 3.0)])
+        for rw in r.sample(rows, min(len(rows), r.choice([2, 2, 3, 4]))):
+            rw['r'] = thick
+        first = r.choice([None, dict(op='resample', res=r.choice([2, 4, 7])), dict(op='resample', res=r.choice([2, 4, 7])),
+                          dict(op='resample', res=3, method=r.choice(METHODS))])
+        yield dict(stream='soma', rows=rows, units=units, seed=r.randrange(10 ** 9), nops=r.randint(2, 7), meta=meta, first=first,
+                   soma=(k % 5 == 0), soma_none=(k % 11 == 7),
+                   backend=['fastcore', 'igraph', 'networkx'][k % 3] if k % 4 == 0 else 'fastcore')
+    # 4. construction
+    for k in range(ctx.budget(50, 300)):
+        rows, meta = G.rand_forest(r, nmax=20, allow_zero_edges=(k % 4 == 0))
+        yield dict(stream='construct', rows=rows, how=CONSTRUCT[k % len(CONSTRUCT)], seed=r.randrange(10 ** 9), nops=r.randint(0, 4), meta=meta)
+    # 5. mesh → skeleton
+    for k in range(ctx.budget(3, 12)):
+        rows, meta = G.rand_forest(r, n=r.randint(4, 10), shape=r.choice(['chain', 'random', 'broom']), labeling='seq', order='parent_first')
+        yield dict(stream='construct', rows=rows, how='mesh', seed=r.randrange(10 ** 9), nops=2, meta=meta)
+
+
+CONSTRUCT = ['df_alias', 'df_dtypes', 'nx_digraph', 'nx_graph', 'nx_root', 'edges', 'tuple', 'swc_text', 'swc_file', 'series', 'reinit', 'nx_handmade']
+
+
+def construct(case):
+    """Build a TreeNeuron from `rows` through one of navis' construction paths.  Returns (neuron, expectation) where the
+    expectation says what the constructed topology must be: ('same', wire) = this parent map; ('edges', n, uedges) = this
+    undirected edge set on n nodes (orientation chosen by navis); None = only the oracle applies."""
+    rows, how = case['rows'], case['how']
+    rr = random.Random(case['seed'])
+    df = G.rows_to_df(rows)
+    ids = [rw['id'] for rw in rows]
+    und = sorted(tuple(sorted((rw['id'], rw['parent']))) for rw in rows if rw['parent'] >= 0)
+    if how == 'df_alias':
+        alias = rr.choice([dict(node_id='treenode_id', parent_id='parent', x='X', y='Y', z='Z', radius='W'),
+                           dict(node_id='PointNo', parent_id='Parent'), dict(node_id='rowId', parent_id='link'), dict(node_id='node')])
+        d2 = df.rename(columns=alias)
+        if rr.random() < 0.4:
+            d2 = d2.drop(columns=[c for c in ('radius', 'W') if c in d2.columns])
+        return navis.TreeNeuron(d2, units='1 nm'), ('same', G.wire_rows(rows))
+    if how == 'df_dtypes':
+        d2 = df.copy()
+        kind = rr.choice(['int32', 'object', 'uint64', 'float_xyz32', 'index'])
+        big = max(ids) >= 2 ** 31 - 1
+        if kind == 'int32' and not big:
+            d2['node_id'] = d2.node_id.astype(np.int32); d2['parent_id'] = d2.parent_id.astype(np.int32)
+        elif kind == 'object':
+            d2['node_id'] = d2.node_id.astype(object); d2['parent_id'] = d2.parent_id.astype(object)
+        elif kind == 'float_xyz32':
+            for c in 'xyz':
+                d2[c] = d2[c].astype(np.float32)
+        elif kind == 'index':
+            d2.index = np.arange(len(d2))[::-1] * 3 + 7
+        return navis.TreeNeuron(d2, units='1 nm'), ('same', G.wire_rows(rows))
+    if how in ('nx_digraph', 'nx_graph', 'nx_root', 'nx_handmade'):
+        g = nx.DiGraph() if how != 'nx_graph' else nx.Graph()
+        order = list(rows)
+        rr.shuffle(order)
+        for rw in order:
+            g.add_node(rw['id'], x=float(rw['x']), y=float(rw['y']), z=float(rw['z']), radius=0.01)
+        for rw in order:
+            if rw['parent'] >= 0:
+                if how == 'nx_handmade' and rr.random() < 0.5:
+                    g.add_edge(rw['parent'], rw['id'])      # edges pointing away from the root
+                else:
+                    g.add_edge(rw['id'], rw['parent'])
+        root = None
+        if how == 'nx_root':
+            root = rr.choice(ids)
+            x = navis.nx2neuron(g, root=root, units='1 nm')
+        elif rr.random() < 0.5:
+            x = navis.TreeNeuron(g, units='1 nm')
+        else:
+            x = navis.nx2neuron(g, units='1 nm')
+        return x, ('edges', [rw['id'] for rw in order], und, root)
+    if how in ('edges', 'tuple'):
+        ix = {rw['id']: j for j, rw in enumerate(rows)}
+        edges = [[ix[rw['id']], ix[rw['parent']]] if rr.random() < 0.5 else [ix[rw['parent']], ix[rw['id']]] for rw in rows if rw['parent'] >= 0]
+        rr.shuffle(edges)
+        verts = np.array([[rw['x'], rw['y'], rw['z']] for rw in rows], dtype=float)
+        if not edges:
+            return None, None
+        e = np.array(edges, dtype=int)
+        x = navis.TreeNeuron((verts, e), units='1 nm') if how == 'tuple' else navis.edges2neuron(e, verts, units='1 nm')
+        und2 = sorted(tuple(sorted(p)) for p in edges)
+        return x, ('edges', list(range(len(rows))), und2, None)
+    if how in ('swc_text', 'swc_file'):
+        # hand-written SWC text in the table's own row order (ids as they are, parents possibly after children)
+        lines = ['# generated'] + [f"{rw['id']} 0 {rw['x']} {rw['y']} {rw['z']} 0.5 {rw['parent']}" for rw in rows]
+        txt = '\n'.join(lines) + '\n'
+        prec = case.get('precision_force', rr.choice([32, 64, None]))
+        case['precision'] = prec
+        if how == 'swc_text':
+            x = navis.read_swc(txt, precision=prec)
+        else:
+            with tempfile.TemporaryDirectory() as d:
+                p = os.path.join(d, 'n.swc')
+                open(p, 'w').write(txt)
+                if prec == 32 and rr.random() < 0.5:
+                    x = navis.TreeNeuron(p)
+                else:
+                    x = navis.read_swc(p, precision=prec)
+        return x, ('same', G.wire_rows(rows))
+    if how == 'series':
+        return navis.TreeNeuron(pd.Series(dict(nodes=df, name='s')), units='1 nm'), ('same', G.wire_rows(rows))
+    if how == 'reinit':
+        return navis.TreeNeuron(G.to_neuron(rows)), ('same', G.wire_rows(rows))
+    if how == 'mesh':
+        x = G.to_neuron(rows) * 50
+        m = navis.conversion.tree2meshneuron(x, tube_points=6, radius_scale_factor=300)
+        method = rr.choice(['wavefront', 'vertex_clusters'])
+        kw = dict(waves=1) if method == 'wavefront' else dict(sampling_dist=40)
+        return navis.skeletonize(m, method=method, **kw), None
+    raise KeyError(how)
+
+
+def run_construct(ctx, case):
+    ctx.count('construct', case['how'])
+    try:
+        x, exp = construct(case)
+    except Exception as e:
+        ctx.count('op_error', f"construct/{case['how']}:{type(e).__name__}")
+        return
+    if x is None or len(x.nodes) == 0:
+        return
+    if isinstance(x, navis.NeuronList):
+        x = x[0]
+    step0 = dict(op='construct:' + case['how'])
+    pre = dict(big_ids=max(rw['id'] for rw in case['rows']) >= 2 ** 31 - 1, precision=case.get('precision', 32))
+    if signature(step0, pre) == SIG_SWC32:
+        exp = None      # ids ≥ 2³¹ wrap under the default 32-bit precision (recorded defect): only the oracle, with its signature
+    if exp is not None and exp[0] == 'same':
+        model = ctx.ask('f.classify ' + exp[1])
+        ctx.corr(G.topo_neuron(x), model, f"construction ({case['how']}): node table vs Lean classify of the input table", case)
+    elif exp is not None and exp[0] == 'edges':
+        _, order, und, root = exp
+        pm = state(x)['pm']
+        got = sorted(tuple(sorted((i, p))) for i, p in pm.items() if p >= 0)
+        # navis is free to pick the root of each tree unless `root` is given: the model re-derives the parents from the edge
+        # list by traversal (`fromEdges`), rooted where navis rooted each tree
+        roots = [i for i in x.nodes.node_id.values.tolist() if pm[int(i)] < 0]
+        if root is not None and len(roots) == 1:
+            # (nx2neuron ignores `root=0`: `if not root` — not a matter of well-formedness, only counted)
+            ctx.count('nx2neuron_root_honoured', str(roots == [root]) + ('/root=0' if root == 0 else ''))
+        model = ctx.ask(f"c01x.fromedges {','.join(map(str, order))} | {';'.join(f'{a},{b}' for a, b in und)} | {','.join(map(str, roots))}")
+        ctx.corr(G.topo_neuron(x), model, f"construction ({case['how']}): node table vs Lean fromEdges (edge list + the roots navis chose)", case)
+        ctx.corr(got, [tuple(e) for e in und], f"construction ({case['how']}): undirected edges differ from the input's", case)
+    if not check_state(ctx, x, case, -1, step0, pre):
+        return
+    r = random.Random(case['seed'] + 1)
+    _history(ctx, case, x, r, case['nops'], 'hist')
+
+
+def run_soma_case(ctx, case):
+    """thick nodes → (optional resample, `first`) → node-dropping operations; one history, one op list."""
+    r = random.Random(case['seed'])
+    with B.backend(case.get('backend', 'fastcore')):
+        x = to_neuron(case['rows'], units=case.get('units', '1 nm'))
+        if case.get('soma'):
+            x.soma = r.choice(thick_ids(x) or [case['rows'][0]['id']])
+        if case.get('soma_none'):
+            x.soma = None
+        ctx.count('soma_initial', soma_spec(x)[0] + str(min(len(soma_list(x) or []), 3)))
+        if not check_state(ctx, x, case, -1, dict(op='construct')):
+            return
+        _history(ctx, case, x, r, case['nops'] + (1 if case.get('first') else 0), 'soma')
 
 
 def run(ctx):
-    ctx.extra['rule'] = ('a case = (generated forest, seeded operation history of 3–12 (quick) / 3–30 (thorough) steps drawn from '
-                         f'{len(MODELLED)} modelled + {len(WATCHED)} watched operations, in place or on copies); non-trivial when ≥ 3 nodes')
-    ctx.extra['ops_modelled'] = MODELLED
-    ctx.extra['ops_watched_by_oracle_only'] = WATCHED
+    ctx.extra['rule'] = ('a case = (generated forest or construction input, seeded operation history of 1–12 (quick) / 1–30 (thorough) steps '
+                         f'drawn from {len(MODELLED)} + {len(MODELLED_EXT)} modelled and {len(WATCHED)} watched operations with their options, '
+                         'in place or on copies, on one of three back-ends); non-trivial when ≥ 3 nodes')
+    ctx.extra['ops_modelled'] = MODELLED + MODELLED_EXT
+    ctx.extra['ops_watched_by_oracle_only'] = [w for w in WATCHED if w not in MODELLED_EXT]
+    ctx.extra['streams'] = ['hist', 'resample', 'soma', 'construct']
     for case in gen_cases(ctx):
         ctx.case({k: v for k, v in case.items()}, nontrivial=len(case['rows']) >= 3)
         m = case['meta']
+        ctx.count('stream', case['stream'])
         ctx.count('shape', m['shape']); ctx.count('labeling', m['labeling']); ctx.count('order', m['order'])
-        nfail = len(ctx.failures)
+        ctx.count('backend', case.get('backend', 'fastcore'))
+        dispatch(ctx, case)
+
+
+def dispatch(ctx, case):
+    s = case.get('stream', 'hist')
+    if s == 'construct':
+        run_construct(ctx, case)
+    elif s == 'soma':
+        run_soma_case(ctx, case)
+    else:
         run_history(ctx, case)
 
 
@@ -287,15 +1092,16 @@ def replay(ctx, rp):
     c = dict(case)
     if 'ops_done' in c:
         c['ops'] = c.pop('ops_done')
+        c.pop('first', None)
     ctx.case(case)
-    run_history(ctx, c)
+    dispatch(ctx, c)
 
 
 def shrink(ctx, f):
     """Drop operations from the front/back while the same failure persists."""
     case = dict(f['case'])
     ops = case.get('ops_done')
-    if not ops:
+    if not ops or case.get('stream') == 'construct':
         return f
     best = f
     sub = C_sub(ctx)
@@ -304,14 +1110,16 @@ def shrink(ctx, f):
         trial = ops[:i] + ops[i + 1:]
         c2 = dict(case, ops=trial)
         c2.pop('ops_done', None)
+        c2.pop('first', None)
         sub.failures = []
         try:
-            run_history(sub, c2)
+            dispatch(sub, c2)
         except Exception:
             sub.failures = []
-        if any(x['what'].split(':')[-1] == f['what'].split(':')[-1] for x in sub.failures):
+        same = [x for x in sub.failures if x['kind'] == f['kind'] and x['what'].split(':')[-1] == f['what'].split(':')[-1]]
+        if same:
             ops = trial
-            best = dict(sub.failures[0])
+            best = dict(same[0])
             best['case'] = dict(c2, ops_done=trial)
         else:
             i += 1
